@@ -27,6 +27,7 @@ their proofs by the `_fixed` theorems).
 import Olla.Model.Provider
 import Olla.Spec.C11
 import Olla.Spec.State
+import Olla.Props.C09
 
 namespace Olla.Props.C11
 open Olla.Gen.Providers Olla.Model.Provider Olla.Spec.C11
@@ -255,6 +256,56 @@ theorem C11_empty_witness :
   decide
 
 /-! ### Model listings -/
+
+/-! ### The model-routing stage really narrows (`Narrows` discharged for the routing model of C09)
+
+The later stage that looks at the request's model is `registry.GetRoutableEndpointsForModel`, i.e. the routing strategy of
+C09 called with the endpoints stage 1 left over as candidates.  Endpoints are identified across the two models by their
+position in the deployment `all`.  With the candidates fix (48dd5d0) every strategy, under every configuration and after
+every refresh outcome, narrows; the pinned discovery strategy with refresh-on-miss and fallback all did not (witness). -/
+
+/-- the routing strategy `route` (positions in, positions out) as a stage over endpoint records -/
+def routingStage (all : List Ep) (route : List Nat → List Nat) (l : List Ep) : List Ep :=
+  (route (l.filterMap (fun e => all.findIdx? (· == e)))).filterMap (fun i => all[i]?)
+
+private theorem getElem?_of_findIdx? {all : List Ep} {e : Ep} {i : Nat}
+    (h : all.findIdx? (· == e) = some i) : all[i]? = some e := by
+  rw [List.findIdx?_eq_some_iff_getElem] at h
+  obtain ⟨hi, hp, _⟩ := h
+  have : all[i] = e := by simpa using hp
+  rw [List.getElem?_eq_getElem hi, this]
+
+theorem routingStage_narrows (all : List Ep) (route : List Nat → List Nat)
+    (hr : ∀ c, ∀ i ∈ route c, i ∈ c) : Narrows (routingStage all route) := by
+  intro l e he
+  unfold routingStage at he
+  rw [List.mem_filterMap] at he
+  obtain ⟨i, hi, hie⟩ := he
+  have hic := hr _ i hi
+  rw [List.mem_filterMap] at hic
+  obtain ⟨e', he', hfi⟩ := hic
+  have := getElem?_of_findIdx? hfi
+  rw [hie] at this
+  cases this
+  exact he'
+
+/-- **The routing stage of the repaired tree narrows**, whatever strategy, fallback, refresh outcome and lister set. -/
+theorem C11_routing_stage_narrows (all : List Ep) (vs : Olla.Model.Routing.Variants)
+    (hv : vs.discoveryCandidates = .fixed) (typ fb : String) (rom : Bool) (oc : Olla.Model.Routing.Refresh) (listers : List Nat) :
+    Narrows (routingStage all (fun c => (Olla.Model.Routing.routeC vs typ fb rom oc c listers).eps)) := by
+  apply routingStage_narrows
+  intro c i hi
+  have h := Olla.Props.C09.C09_within_candidates vs hv typ fb rom oc c listers
+  unfold Olla.Spec.C09.clauseWithinCandidates at h
+  simp only [Olla.Spec.C09.Obs.ofRouted, List.all_eq_true] at h
+  simpa using h i hi
+
+/-- Pinned tree: deployment [vllm V (position 0), ollama O (position 1)], the provider stage leaves [V], nobody lists the
+    model, the refresh reports both healthy, fallback all: the "stage" hands back O as well. -/
+theorem C11_routing_stage_pinned_witness :
+    let all : List Ep := [{ name := "V", ty := "vllm", healthy := true, models := [] }, { name := "O", ty := "ollama", healthy := true, models := ["m"] }]
+    (routingStage all (fun c => (Olla.Model.Routing.routeC Olla.Model.Routing.allPinned Olla.Gen.Routing.strategyDiscovery
+        Olla.Gen.Routing.fallbackAll true (.ok [0, 1]) c []).eps) [all[0]]).map (·.name) = ["V", "O"] := by decide
 
 /-- **Model listings under a provider prefix contain only models available on endpoints of that
     provider's kind** — both branches of the listing filter (source endpoint type, alias source).
